@@ -47,11 +47,16 @@
       C02 case = (columns pknames (variant ...) (mutant ...) cli)
          variant = (rows runSize arrival goparams) -- the same logical table, permuted
          mutant  = (columns pknames rows)          -- differs in one cell / name / order / key
-         cli     = 1: also drive commitIfBranchFileHasChanged four times (see harness/c02.go)
+         cli     = 1: also drive commitIfBranchFileHasChanged four times (see harness/c02.go);
+                   2: branch-file mode WITH the cache: a sixth element lists steps
+                   (delta+100000 content all): write content 0/1/2 (variant 0 / variant 1 /
+                   mutant 0), set the file's mtime to the cached commit's time + delta ms,
+                   run wrgl commit BRANCH MSG (all = 1: commit --all)
       C02 observation = (status (block ...) (same ...) (differs ...) (cli ...))
          blocks of variant 0; same_i = table of variant i+1 equals that of variant 0;
          differs_j = table of mutant j differs from variant 0 (2 = mutant refused);
-         cli = () or the four decisions "a commit is created" for: first commit, unchanged
+         cli = (for cli = 2) "a commit is created" for: first commit, the commit that creates
+         the cache, every step;  (for cli = 1) () or the four decisions "a commit is created" for: first commit, unchanged
          file, file rewritten with variant 1, file rewritten with mutant 0. *)
 From W.lib Require Import Tree Bytes GoSort.
 From W.model Require Import Sorter.
@@ -252,6 +257,29 @@ Definition diagnose (T : table) : option issue :=
 Definition commit_if_changed (head_table : option N) (tmp_table : N) : bool :=
   match head_table with Some old => negb (old =? tmp_table) | None => true end.
 
+(** ensureTempCommit, the cache in front of that decision (branch-file mode: wrgl commit
+    BRANCH MSG, commit --all).  The last ingestion of branch.file is kept as the commit
+    <branch>-tmp; it is reused unless its message is not the file name, its key differs, or
+    its time is BEFORE the file's modification time (com.Time.Before(fd.ModTime())).  Times
+    in milliseconds; the commit time is stored with second precision (rounded down), the
+    modification time is not rounded.  File name and key are constant here. *)
+Definition cache_fresh (commit_time mtime : N) : bool := negb (commit_time <? mtime).
+
+Record cstate := mk_cstate {
+  cs_head : option N;             (* table id of the branch head *)
+  cs_cache : option (N * N)       (* <branch>-tmp: (commit time, table id) *)
+}.
+(** one `wrgl commit BRANCH MSG`: [mtime] of the file, [now] = commit time if the file is
+    ingested again, [table] = id of the table the file holds.  Result: new state, and whether
+    a commit was created on the branch. *)
+Definition branch_commit_step (st : cstate) (mtime now table : N) : cstate * bool :=
+  let used := match cs_cache st with
+              | Some (t, tb) => if cache_fresh t mtime then (t, tb) else (now, table)
+              | None => (now, table)
+              end in
+  let created := commit_if_changed (cs_head st) (snd used) in
+  (mk_cstate (if created then Some (snd used) else cs_head st) (Some used), created).
+
 (** ------------------------------------------------------------------ *)
 (** tree coders and run functions (trusted only by the correspondence)  *)
 
@@ -383,6 +411,24 @@ Definition run_C02 (c : tree) : tree :=
              t_bool (commit_if_changed (Some i0) (id_of T0 known));
              t_bool (commit_if_changed (Some i0) (id_of T1 known));
              t_bool (commit_if_changed (Some i0) (id_of M0 known))]
+        | 2%nat, IOk T1 _ :: _, IOk M0 _ :: _ =>
+            (* branch-file mode with the cache: first commit, the commit that creates the
+               cache, then steps (delta+100000 content all): the file gets content 0/1/2
+               (variant 0, variant 1, mutant 0) and mtime = cached commit time + delta ms *)
+            let known := [T0; T1; M0] in
+            let id_c (k : nat) := id_of (nth k known T0) known in
+            let st0 := mk_cstate (Some (id_c 0%nat)) None in
+            let '(st1, c1) := branch_commit_step st0 0 1000000 (id_c 0%nat) in
+            t_bool true :: t_bool c1 ::
+            (fix go (st : cstate) (steps : list tree) : list tree :=
+               match steps with
+               | [] => []
+               | sp :: steps' =>
+                   let tc := match cs_cache st with Some (t, _) => t | None => 0 end in
+                   let mtime := tc + d_N (d_nth 0 sp) - 100000 in
+                   let '(st', cr) := branch_commit_step st mtime (tc + 10000) (id_c (d_nat (d_nth 1 sp))) in
+                   t_bool cr :: go st' steps'
+               end) st1 (d_list (fun t => t) (d_nth 5 c))
         | _, _, _ => []
         end in
       Node [Leaf 0; t_blocks_tree t_row T0;
